@@ -24,7 +24,7 @@
 (* The store is a VALUE st (projection written by harness/auth.go):         *)
 (*   mainnet, gw, avs[addr] = [owners, task, ver], usd, tasks, results, chal,    *)
 (*   ops, opt, bls, ckey, vals, nonce, round, pv[module], assoc, newtoken,  *)
-(*   chain102, tokmeta, funded                                              *)
+(*   chain102, tokmeta, funded, natdel                                      *)
 (*                                                                         *)
 (* Two predicates are kept apart on purpose:                                *)
 (*   StmtAuthorized(st,e,c)  - who MAY, written from the property statement *)
@@ -48,11 +48,15 @@ ASSUME DEVS \subseteq AllDevs
 (***************************************************************************)
 GW   == {"depositLST", "withdrawLST", "depositNST", "withdrawNST", "registerOrUpdateClientChain",
          "registerToken", "updateToken", "delegate", "undelegate",
-         "associateOperatorWithStaker", "dissociateOperatorFromStaker"}
+         "associateOperatorWithStaker", "dissociateOperatorFromStaker",
+         \* second payloads: other staker (s2) / other operator (o3, a validator)
+         "depositLST_s2", "depositNST_s2", "delegate_o3", "associate_s2", "dissociate_s1"}
 \* challengeWrongHash = challenge with a task hash that is not the task's (lead L21)
-AVSM == {"registerAVS", "updateAVS", "deregisterAVS", "createTask", "challenge", "challengeWrongHash"}
+\* registerAVS2 / updateAVS2 = the same methods with a payload whose owner list is {a1, a2}
+AVSM == {"registerAVS", "registerAVS2", "updateAVS", "updateAVS2", "deregisterAVS", "createTask", "challenge", "challengeWrongHash"}
 OPP  == {"registerOperatorToAVS", "deregisterOperatorFromAVS", "registerBLSPublicKey"}
-OPM  == {"RegisterOperator", "OptIntoAVS", "OptOutOfAVS", "SetConsKey", "SubmitTaskResult"}
+\* MsgDelegation / MsgUndelegation: native-token (un)delegation of the signer's own account
+OPM  == {"RegisterOperator", "OptIntoAVS", "OptOutOfAVS", "SetConsKey", "SubmitTaskResult", "MsgDelegation", "MsgUndelegation"}
 ORA  == {"CreatePrice"}
 PMODS == {"oracle", "dogfood", "exomint", "feedistribution", "assets"}
 ParEntry(m) == "UpdateParams_" \o m
@@ -67,9 +71,11 @@ Principal(e) ==
     [] e = "OptOutOfAVS"      -> "o2"
     [] e = "SetConsKey"       -> "o1"
     [] e = "SubmitTaskResult" -> "o2"
+    [] e = "MsgDelegation"    -> "s1"
+    [] e = "MsgUndelegation"  -> "s2"
 
-\* owners listed in the registerAVS / updateAVS payload
-PayloadOwners == {"a1"}
+\* owners listed in the registerAVS / updateAVS payloads
+PayloadOwners(e) == IF e \in {"registerAVS2", "updateAVS2"} THEN {"a1", "a2"} ELSE {"a1"}
 \* parameter value written by the fixed UpdateParams payloads
 Marker(m) == CASE m = "oracle" -> "77" [] m = "dogfood" -> "77" [] m = "exomint" -> "77"
                [] m = "feedistribution" -> "hour" [] m = "assets" -> "a2"
@@ -95,8 +101,8 @@ CarriedPub(c) == IF c.sig = "valid" THEN c.key ELSE c.claimed
 (***************************************************************************)
 StmtAuthorized(st, e, c) ==
   CASE e \in GW   -> c.kind = "evm" /\ c.from = st.gw
-    [] e = "registerAVS" -> c.kind = "evm" /\ c.sender \in PayloadOwners
-    [] e \in {"updateAVS", "deregisterAVS"} -> c.kind = "evm" /\ c.sender \in OwnersOf(st, c.from)
+    [] e \in {"registerAVS", "registerAVS2"} -> c.kind = "evm" /\ c.sender \in PayloadOwners(e)
+    [] e \in {"updateAVS", "updateAVS2", "deregisterAVS"} -> c.kind = "evm" /\ c.sender \in OwnersOf(st, c.from)
     [] e \in {"createTask", "challenge", "challengeWrongHash"} -> c.kind = "evm" /\ c.sender \in OwnersOf(st, AvsOfTask(st, c.from))
     \* operator-bound precompile methods: the operator acted for must be the signer of the tx
     [] e \in OPP  -> c.kind = "evm" /\ c.sender = c.origin
@@ -112,8 +118,9 @@ StmtAuthorized(st, e, c) ==
 \* app/ante/cosmos: SetPubKeyDecorator + SigVerificationDecorator (ordinary messages);
 \* ValidateBasic of the SDK tx rejects a tx without signatures
 AnteOK(c) == SigOK(c)
-\* oracle branch: public key must hash to the signer; the result of VerifySignature is
-\* discarded (sigverify.go) - DEV_OracleSigIgnored
+\* oracle branch: public key must hash to the signer and the signature must verify (since fix
+\* 873f403; before it the result of VerifySignature was discarded = DEV_OracleSigIgnored, kept as a
+\* switch so that the repaired defect stays expressible in the model)
 OracleAnteOK(c) ==
   /\ c.sig \notin {"missing", "nopub"}     \* no signatures: ValidateBasic; no public key: nil dereference, recovered
   /\ CarriedPub(c) = c.claimed
@@ -121,8 +128,8 @@ OracleAnteOK(c) ==
 
 CodeAccepts(st, e, c) ==
   CASE e \in GW   -> c.from = st.gw                                     \* CheckExocoreGatewayAddr
-    [] e = "registerAVS" -> c.sender \in PayloadOwners                  \* slices.Contains(owners, caller)
-    [] e \in {"updateAVS", "deregisterAVS"} -> c.sender \in OwnersOf(st, c.from)
+    [] e \in {"registerAVS", "registerAVS2"} -> c.sender \in PayloadOwners(e)   \* slices.Contains(owners, caller)
+    [] e \in {"updateAVS", "updateAVS2", "deregisterAVS"} -> c.sender \in OwnersOf(st, c.from)
     [] e = "createTask"  -> c.sender \in OwnersOf(st, AvsOfTask(st, c.from))
     [] e \in {"challenge", "challengeWrongHash"} -> \/ "DEV_ChallengeNoOwner" \in DEVS          \* RaiseAndResolveChallenge: no owner check
                             \/ c.sender \in OwnersOf(st, AvsOfTask(st, c.from))
@@ -139,13 +146,15 @@ CodeAccepts(st, e, c) ==
 (* non-authorisation preconditions of the fixed payloads                    *)
 (***************************************************************************)
 Feasible(st, e, c) ==
-  CASE e \in {"depositLST", "depositNST", "updateToken", "registerOrUpdateClientChain"} -> TRUE
-    [] e \in {"withdrawLST", "withdrawNST", "delegate", "undelegate"} -> st.funded
+  CASE e \in {"depositLST", "depositNST", "updateToken", "registerOrUpdateClientChain", "depositLST_s2", "depositNST_s2"} -> TRUE
+    [] e \in {"withdrawLST", "withdrawNST", "delegate", "undelegate", "delegate_o3"} -> st.funded
+    [] e = "associate_s2"  -> "s2" \notin st.assoc
+    [] e = "dissociate_s1" -> "s1" \in st.assoc
     [] e = "registerToken" -> ~st.newtoken
     [] e = "associateOperatorWithStaker"  -> "s1" \notin st.assoc
     [] e = "dissociateOperatorFromStaker" -> "s2" \in st.assoc
-    [] e = "registerAVS"   -> ~Registered(st, c.from) /\ AvsOfTask(st, c.from) = ""
-    [] e = "updateAVS"     -> Registered(st, c.from)
+    [] e \in {"registerAVS", "registerAVS2"} -> ~Registered(st, c.from) /\ AvsOfTask(st, c.from) = ""
+    [] e \in {"updateAVS", "updateAVS2"}     -> Registered(st, c.from)
     \* the payload names the AVS as it was registered ("avs-<addr>"); updateAVS renames it
     [] e = "deregisterAVS" -> Registered(st, c.from) /\ st.avs[c.from].ver = 1
     [] e = "createTask"    -> AvsOfTask(st, c.from) # "" /\ AvsOfTask(st, c.from) \in st.usd
@@ -166,6 +175,8 @@ Feasible(st, e, c) ==
                                  /\ AvsOfTask(st, "cA") # ""             \* epoch of the AVS is looked up by task address
                                  /\ [t |-> "cA", n |-> 1] \in st.tasks
                                  /\ [o |-> c.claimed, t |-> "cA", n |-> 1] \notin st.results
+    [] e = "MsgDelegation"   -> TRUE
+    [] e = "MsgUndelegation" -> c.claimed \in st.natdel
     [] e \in ORA -> c.claimed \in DOMAIN st.nonce /\ st.nonce[c.claimed] = 0 /\ c.claimed \in st.vals
     [] e \in PAR -> TRUE
 
@@ -174,7 +185,13 @@ Feasible(st, e, c) ==
 (***************************************************************************)
 Effect(st, e, c) ==
   CASE e = "depositLST"  -> [st |-> [st EXCEPT !.funded = TRUE], mods |-> {"assets"}]
-    [] e = "withdrawLST" -> [st |-> st, mods |-> {"assets"}]
+    [] e \in {"withdrawLST", "depositLST_s2"} -> [st |-> st, mods |-> {"assets"}]
+    [] e = "depositNST_s2" -> [st |-> st, mods |-> {"assets", "oracle"}]
+    [] e = "delegate_o3"   -> [st |-> st, mods |-> {"assets", "delegation"}]
+    \* s2 holds no LST delegation with o3: no operator share to move in the assets ledger (s1 -> o2 has one)
+    [] e = "associate_s2"  -> [st |-> [st EXCEPT !.assoc = @ \cup {"s2"}], mods |-> {"delegation"}]
+    \* s1 holds an LST delegation with o2 (base B1): the operator share in the assets ledger moves too
+    [] e = "dissociate_s1" -> [st |-> [st EXCEPT !.assoc = @ \ {"s1"}], mods |-> {"assets", "delegation"}]
     [] e \in {"depositNST", "withdrawNST"} -> [st |-> st, mods |-> {"assets", "oracle"}]
     [] e = "registerOrUpdateClientChain" -> [st |-> [st EXCEPT !.chain102 = TRUE], mods |-> IF st.chain102 THEN {} ELSE {"assets"}]
     [] e = "registerToken" -> [st |-> [st EXCEPT !.newtoken = TRUE], mods |-> {"assets", "oracle"}]
@@ -183,11 +200,13 @@ Effect(st, e, c) ==
     [] e = "associateOperatorWithStaker"  -> [st |-> [st EXCEPT !.assoc = @ \cup {"s1"}], mods |-> {"assets", "delegation"}]
     [] e = "dissociateOperatorFromStaker" -> [st |-> [st EXCEPT !.assoc = @ \ {"s2"}], mods |-> {"delegation"}]
     \* the AVS is registered under the CALLING CONTRACT's address (contract.CallerAddress)
-    [] e = "registerAVS" -> [st |-> [st EXCEPT !.avs = [a \in DOMAIN @ \cup {c.from} |->
-                                        IF a = c.from THEN [owners |-> PayloadOwners, task |-> c.from, ver |-> 1] ELSE @[a]]],
+    [] e \in {"registerAVS", "registerAVS2"} ->
+                            [st |-> [st EXCEPT !.avs = [a \in DOMAIN @ \cup {c.from} |->
+                                        IF a = c.from THEN [owners |-> PayloadOwners(e), task |-> c.from, ver |-> 1] ELSE @[a]]],
                              mods |-> {"avs"}]
-    [] e = "updateAVS"   -> [st |-> [st EXCEPT !.avs[c.from] = [owners |-> PayloadOwners, task |-> c.from, ver |-> 2]],
-                             mods |-> IF st.avs[c.from].ver = 2 THEN {} ELSE {"avs"}]
+    [] e \in {"updateAVS", "updateAVS2"} ->
+                            LET new == [owners |-> PayloadOwners(e), task |-> c.from, ver |-> 2] IN
+                            [st |-> [st EXCEPT !.avs[c.from] = new], mods |-> IF st.avs[c.from] = new THEN {} ELSE {"avs"}]
     [] e = "deregisterAVS" -> [st |-> [st EXCEPT !.avs = [a \in DOMAIN @ \ {c.from} |-> @[a]]], mods |-> {"avs"}]
     [] e = "createTask"  -> [st |-> [st EXCEPT !.tasks = @ \cup {[t |-> c.from, n |-> NextTaskId(st, c.from)]}], mods |-> {"avs"}]
     [] e = "challenge"   -> [st |-> [st EXCEPT !.chal = @ \cup {[o |-> "o2", t |-> c.from, n |-> 2, by |-> c.sender]}], mods |-> {"avs"}]
@@ -200,6 +219,9 @@ Effect(st, e, c) ==
     [] e = "SetConsKey"  -> [st |-> [st EXCEPT !.ckey = [o \in DOMAIN @ \cup {c.claimed} |-> IF o = c.claimed THEN "k8" ELSE @[o]]],
                              mods |-> {"operator", "dogfood"}]
     [] e = "SubmitTaskResult" -> [st |-> [st EXCEPT !.results = @ \cup {[o |-> c.claimed, t |-> "cA", n |-> 1]}], mods |-> {"avs"}]
+    \* native token: bank escrow (account -> delegated pool) moves besides the two ledgers
+    [] e = "MsgDelegation"   -> [st |-> [st EXCEPT !.natdel = @ \cup {c.claimed}], mods |-> {"assets", "delegation", "bank"}]
+    [] e = "MsgUndelegation" -> [st |-> st, mods |-> {"assets", "delegation"}]
     [] e \in ORA -> [st |-> [st EXCEPT !.nonce[c.claimed] = 1], mods |-> {"oracle"}]
     [] e \in PAR -> LET m == ModOf(e) IN
                     [st |-> [st EXCEPT !.pv[m] = Marker(m), !.gw = IF m = "assets" THEN Marker(m) ELSE @],
@@ -207,12 +229,20 @@ Effect(st, e, c) ==
 
 Unchanged(st) == [st |-> st, ok |-> FALSE, mods |-> {}]
 
+\* mempool admission (CheckTx): the ante handlers on the check state, messages are not executed.
+\* SubmitTaskResult's tx signer is whoever signs (FromAddress); the operator is named inside.
+AnteAccepts(st, e, c) ==
+  CASE e \in ORA -> OracleAnteOK(c) /\ c.claimed \in DOMAIN st.nonce /\ st.nonce[c.claimed] = 0
+    [] e = "SubmitTaskResult" -> c.sig = "valid"
+    [] OTHER -> AnteOK(c)
+
 \* the code, step by step: authorisation check, then the keeper's own preconditions
 \* calls that the code answers with `true` although nothing happened
 SilentOK(st, e, c) == e = "challengeWrongHash" /\ [t |-> c.from, n |-> 2] \in st.tasks
 
 Call(st, e, c) ==
-  IF ~CodeAccepts(st, e, c) THEN Unchanged(st)
+  IF c.via = "check" THEN [Unchanged(st) EXCEPT !.ok = AnteAccepts(st, e, c)]
+  ELSE IF ~CodeAccepts(st, e, c) THEN Unchanged(st)
   ELSE IF ~Feasible(st, e, c) THEN [Unchanged(st) EXCEPT !.ok = SilentOK(st, e, c)]
   ELSE LET r == Effect(st, e, c) IN [st |-> r.st, ok |-> TRUE, mods |-> r.mods]
 
@@ -224,7 +254,7 @@ RejectNoChange(pre, post, e, c, mods) == StmtAuthorized(pre, e, c) \/ (post = pr
 
 \* an effective call acts for the rightful principal only
 BoundToPrincipal(pre, post, e, c) ==
-  CASE e \in {"registerAVS", "updateAVS", "deregisterAVS"} ->
+  CASE e \in {"registerAVS", "registerAVS2", "updateAVS", "updateAVS2", "deregisterAVS"} ->
            \* AVS address = the calling contract's own address
            /\ \A a \in (DOMAIN pre.avs \cup DOMAIN post.avs) \ {c.from} :
                  a \in DOMAIN pre.avs /\ a \in DOMAIN post.avs /\ post.avs[a] = pre.avs[a]
@@ -244,6 +274,7 @@ BoundToPrincipal(pre, post, e, c) ==
     [] e = "SetConsKey" -> /\ \A o \in DOMAIN post.ckey : o # c.key => (o \in DOMAIN pre.ckey /\ post.ckey[o] = pre.ckey[o])
                            /\ post.opt = pre.opt /\ post.ops = pre.ops
     [] e = "SubmitTaskResult" -> \A x \in post.results \ pre.results : x.o = c.key
+    [] e \in {"MsgDelegation", "MsgUndelegation"} -> (post.natdel \ pre.natdel) \cup (pre.natdel \ post.natdel) \subseteq {c.key}
     [] e \in ORA -> \A k \in DOMAIN post.nonce : k # c.key => (k \in DOMAIN pre.nonce /\ post.nonce[k] = pre.nonce[k])
     [] e \in PAR -> \A m \in PMODS : (m # ModOf(e) /\ ~(ModOf(e) = "assets" /\ m = "assets")) => post.pv[m] = pre.pv[m]
     [] OTHER -> TRUE
